@@ -54,6 +54,7 @@ int main(int argc, char **argv) {
         Json plan = Json::parse(slurp(argv[2]));
         if (plan.has("plan")) plan = plan["plan"];  // replay files wrap the plan
         bool v = argc > 3 && !strcmp(argv[3], "-v");
+        announce_ops = true;
         std::vector<std::string> log;
         printf("BEGIN %lld\n", (long long) plan["index"].num());
         fflush(stdout);
